@@ -2,8 +2,9 @@
    lemma proved in BigIntProofs.v / BigIntProofs2.v / BigIntHelpers.v / BigIntTop.v.
    Model: BigIntModel.v = Include/BigInt.hpp after the repairs D6-D10, D31.
    All statements are for every word width w, every number of words and every state /
-   history (induction over the word list and over the history; no bounds), except the
-   explicitly bounded c19_div2_h3_partial.
+   history (induction over the word list and over the history; no bounds); the 128/64
+   division helper is proved for every half width h (c19_div2_half), and additionally
+   cross-checked by an exhaustive kernel computation at 3-bit halves (c19_div2_h3_sweep).
 
    Notation: bval w s = sum of word_i * 2^(i*w);  pw w i = 2^(w*i);
    WF w s = words < 2^w, index inside the array, every word above index is zero and
@@ -11,11 +12,9 @@
 
    NOT proved here (tied by the correspondence run only): the wide-operand forms of
    = += -= |= &=, = |= &= of a word, FindFirstBit / FindLastBit, the narrowing
-   conversion, copy-assignment; and div2_ok for 64-bit words (the
-   128/64 algorithm) is an explicit premise -- it is proved only exhaustively at 3-bit
-   halves (c19_div2_h3_partial). *)
+   conversion, copy-assignment. *)
 From Coq Require Import NArith List.
-From Qv Require Import BigIntModel BigIntProofs BigIntProofs2 BigIntHelpers BigIntShift BigIntShiftL BigIntTop.
+From Qv Require Import BigIntModel BigIntProofs BigIntProofs2 BigIntHelpers BigIntDiv128 BigIntShift BigIntShiftL BigIntTop.
 Import ListNotations.
 Local Open Scope N_scope.
 
@@ -59,28 +58,32 @@ Theorem c19_div2_narrow : forall w, w <> 64 -> div2_ok w.
 Proof. exact div2_ok_narrow. Qed.
 Print Assumptions c19_div2_narrow.
 
-(* Divide(word): exact quotient and remainder, invariant kept -- relative to the
-   contract of the double-word division helper *)
-Theorem c19_divide : forall w, div2_ok w -> forall s d, WF w s -> 0 < d < Bw w ->
+(* DoubleSize<.,64>::Divide (D8 repaired), for EVERY half width h >= 1: normalising shift,
+   two half-word quotient digits with up to two corrections each, carry fix-up.
+   h = 32 is the shipped 128/64 division. *)
+Theorem c19_div2_half : forall h, 1 <= h -> forall hi lo d, 0 < d < 2 ^ (2 * h) -> hi < d -> lo < 2 ^ (2 * h) ->
+  div2_half h hi lo d ((2 * h - 1) - N.log2 d) =
+  ((hi * 2 ^ (2 * h) + lo) mod d, (hi * 2 ^ (2 * h) + lo) / d).
+Proof. exact div2_half_correct. Qed.
+Print Assumptions c19_div2_half.
+
+Theorem c19_div2 : forall w, div2_ok w.
+Proof. exact div2_ok_all. Qed.
+Print Assumptions c19_div2.
+
+(* Divide(word): exact quotient and remainder, invariant kept; every word width *)
+Theorem c19_divide : forall w s d, WF w s -> 0 < d < Bw w ->
   exists s' r, divide w s d = Ok (s', r) /\ WF w s' /\ bval w s' = bval w s / d /\
                r = bval w s mod d /\ length (words s') = length (words s).
-Proof. exact divide_correct. Qed.
+Proof. intros w. exact (divide_correct w (div2_ok_all w)). Qed.
 Print Assumptions c19_divide.
 
-(* ... hence unconditionally for 8, 16 and 32-bit words (any width other than 64) *)
-Theorem c19_divide_narrow : forall w, w <> 64 -> forall s d, WF w s -> 0 < d < Bw w ->
-  exists s' r, divide w s d = Ok (s', r) /\ WF w s' /\ bval w s' = bval w s / d /\
-               r = bval w s mod d /\ length (words s') = length (words s).
-Proof. intros w Hw. exact (divide_correct w (div2_ok_narrow w Hw)). Qed.
-Print Assumptions c19_divide_narrow.
-
-(* PARTIAL for 64-bit words: the 128/64 algorithm (normalising shift, two half-word
-   quotient digits with double correction, repaired overflow branch D8), re-instantiated
-   at 3-bit halves, is exact on ALL (hi, lo, d) with 0 < d < 64, hi < d, lo < 64 *)
-Theorem c19_div2_h3_partial : forall hi lo d, 0 < d < 64 -> hi < d -> lo < 64 ->
+(* independent cross-check of the same algorithm by exhaustive kernel computation at 3-bit
+   halves: all (hi, lo, d) with 0 < d < 64, hi < d, lo < 64 *)
+Theorem c19_div2_h3_sweep : forall hi lo d, 0 < d < 64 -> hi < d -> lo < 64 ->
   div2_half 3 hi lo d (5 - N.log2 d) = ((hi * 64 + lo) mod d, (hi * 64 + lo) / d).
 Proof. exact div2_half_h3_partial. Qed.
-Print Assumptions c19_div2_h3_partial.
+Print Assumptions c19_div2_h3_sweep.
 
 (* ShiftRight by any number of bits: whole-word move, then bit shift *)
 Theorem c19_shift_right : forall w, 0 < w -> forall s offset, WF w s ->
@@ -114,11 +117,11 @@ Proof. exact compare_correct. Qed.
 Print Assumptions c19_compare.
 
 (* one step of a history, for the operations of [proved_op] *)
-Theorem c19_step : forall w, 0 < w -> div2_ok w -> forall n s o v' r,
+Theorem c19_step : forall w, 0 < w -> forall n s o v' r,
   proved_op w o -> WF w s -> length (words s) = n ->
   spec_op w n (bval w s) o = Some (v', r) ->
   exists s', run_op w s o = Ok (s', r) /\ WF w s' /\ bval w s' = v' /\ length (words s') = n.
-Proof. intros w Hw. exact (step_correct w Hw (mul2_ok_all w Hw)). Qed.
+Proof. intros w Hw. exact (step_correct w Hw (mul2_ok_all w Hw) (div2_ok_all w)). Qed.
 Print Assumptions c19_step.
 
 (* every history of Add / Subtract (at any word), += / -= word, Multiply, Divide, <<=, >>=,
@@ -126,22 +129,22 @@ Print Assumptions c19_step.
    as the specification speaks (results fit, preconditions hold) no step errs, every
    state satisfies the invariant and holds exactly the specified integer, every returned
    remainder is exact *)
-Theorem c19_history : forall w, 0 < w -> div2_ok w -> forall n ops s outs,
+Theorem c19_history : forall w, 0 < w -> forall n ops s outs,
   Forall (proved_op w) ops -> WF w s -> length (words s) = n ->
   spec_run w n (bval w s) ops = Some outs ->
   Forall2 (obs_ok w n) (run_ops w s ops) outs.
-Proof. intros w Hw. exact (history_correct w Hw (mul2_ok_all w Hw)). Qed.
+Proof. intros w Hw. exact (history_correct w Hw (mul2_ok_all w Hw) (div2_ok_all w)). Qed.
 Print Assumptions c19_history.
 
-(* ... unconditionally for 8/16/32-bit words, from the zero object *)
-Theorem c19_history_narrow : forall w, 0 < w -> w <> 64 -> forall n ops outs, (0 < n)%nat ->
+(* ... in particular from the freshly constructed (zero) object *)
+Theorem c19_history_from_zero : forall w, 0 < w -> forall n ops outs, (0 < n)%nat ->
   Forall (proved_op w) ops -> spec_run w n 0 ops = Some outs ->
   Forall2 (obs_ok w n) (run_ops w (zero_big n) ops) outs.
 Proof.
-  intros w Hw Hne n ops outs Hn Hp Hs.
+  intros w Hw n ops outs Hn Hp Hs.
   destruct (zero_big_WF w Hw n Hn) as (HWF & Hz).
-  apply (history_correct w Hw (mul2_ok_all w Hw) (div2_ok_narrow w Hne) n ops (zero_big n) outs Hp HWF).
+  apply (history_correct w Hw (mul2_ok_all w Hw) (div2_ok_all w) n ops (zero_big n) outs Hp HWF).
   - unfold zero_big. cbn. apply repeat_length.
   - rewrite Hz. exact Hs.
 Qed.
-Print Assumptions c19_history_narrow.
+Print Assumptions c19_history_from_zero.
